@@ -919,48 +919,54 @@ func (g *Graph) ReachFromTracked(from *V, startAt bool, avoid *Avoid) map[*V]boo
 	g.usesFlags()
 	env.only = g.flagVars
 	defer func() { env.unt = nil; env.cur = nil }()
+	// The exploration starts at the entry of the function, so that the
+	// values the flags have when `from` is reached are known; only what is
+	// reached after passing `from` counts, and the vertices and edges to
+	// avoid are avoided only then.
 	type item struct {
-		x     *V
-		store map[types.Object]int64
+		x      *V
+		store  map[types.Object]int64
+		passed bool
 	}
 	out := map[*V]bool{}
 	seen := map[string]bool{}
 	var stack []item
-	push := func(x *V, st map[types.Object]int64) {
-		if avoid.v(x) {
+	push := func(x *V, st map[types.Object]int64, passed bool) {
+		if passed && avoid.v(x) {
 			return
 		}
 		k := storeKey(x, st)
+		if passed {
+			k += "+"
+		}
 		if !seen[k] {
 			seen[k] = true
-			stack = append(stack, item{x, st})
+			stack = append(stack, item{x, st, passed})
 		}
 	}
-	if startAt {
-		push(from, nil)
+	if from == g.Entry {
+		push(g.Entry, nil, startAt)
 	} else {
-		env.cur = nil
-		st := env.step(from, nil, 0, unt)
-		env.cur = st
-		take := EdgeNone
-		if from.Cond != nil {
-			take = env.evalCond(from.Cond, 0)
-		}
-		for _, e := range from.Succs {
-			if take != EdgeNone && e.Label != EdgeNone && e.Label != take {
-				continue
-			}
-			if avoid.e(from, e.Label) {
-				continue
-			}
-			push(e.To, st)
-		}
+		push(g.Entry, nil, false)
 	}
+	reachedFrom := false
 	for len(stack) > 0 {
 		it := stack[len(stack)-1]
 		stack = stack[:len(stack)-1]
 		x := it.x
-		out[x] = true
+		passed := it.passed
+		if x == from && !passed {
+			reachedFrom = true
+			if startAt {
+				if avoid.v(x) {
+					continue
+				}
+				passed = true
+			}
+		}
+		if passed {
+			out[x] = true
+		}
 		env.cur = it.store
 		store := env.step(x, it.store, 0, unt)
 		env.cur = store
@@ -968,18 +974,24 @@ func (g *Graph) ReachFromTracked(from *V, startAt bool, avoid *Avoid) map[*V]boo
 		if x.Cond != nil {
 			take = env.evalCond(x.Cond, 0)
 		}
+		nextPassed := passed || x == from
 		for _, e := range x.Succs {
 			if take != EdgeNone && e.Label != EdgeNone && e.Label != take {
 				continue
 			}
-			if avoid.e(x, e.Label) {
+			if nextPassed && avoid.e(x, e.Label) {
 				continue
 			}
-			push(e.To, g.refineNil(x, e.Label, store, env.only))
+			push(e.To, g.refineNil(x, e.Label, store, env.only), nextPassed)
 		}
-		if len(seen) > 6000 {
+		if len(seen) > 12000 {
 			return g.reachPlain(from, startAt, avoid)
 		}
+	}
+	if !reachedFrom && from != g.Entry {
+		// from is not reachable on a feasible path from the entry (or lies
+		// in code the entry does not reach): fall back to plain reachability
+		return g.reachPlain(from, startAt, avoid)
 	}
 	return out
 }
